@@ -11,14 +11,15 @@ LEVEL = "exploration"
 STATUSES = ["clean", "modified-unstaged", "modified-staged", "modified-both", "added", "deleted-unstaged", "deleted-staged", "renamed", "untracked"]
 RULE = ("Real git repositories. A (enumerated, both tiers): every status git can report for a file (clean, modified-unstaged, "
         "modified-staged, modified-both, added, deleted-unstaged, deleted-staged, renamed, renamed-then-edited, untracked) x {pattern file (named plainly, as ./path or through a glob), "
-        "unrelated file} x --allow-dirty on/off x file in the top directory or a sub-directory x with/without a (no-op) pre-commit hook (320 cases). B (Hypothesis): "
+        "unrelated file} x --allow-dirty on/off x file in the top directory or a sub-directory x with/without a (no-op) pre-commit hook (320 cases) plus every status x pattern/unrelated x --allow-dirty for four file names that git prints quoted (blank, blank in the directory, non-ASCII with core.quotePath on and off, double quote + backslash; 200 cases). B (Hypothesis): "
         "1..4 files (pattern files and unrelated files, sub-directories) with independent statuses, --allow-dirty on/off. "
         "The status text is whatever the real `git status --porcelain` prints. Oracle: expected abort iff (some file has a "
         "tracked change and not --allow-dirty) or (some pattern file has any uncommitted change, untracked included). Abort "
         "=> exit != 0, working-tree bytes, index (`git ls-files -s`, `git diff --cached`) and HEAD unchanged, no tag. "
         "Proceed => exit 0, exactly one new commit, and for every pattern file `git show HEAD:f` equals `git show HEAD~1:f` "
         "with only the version re-filled. Non-trivial: some file is not clean.")
-ASSUME = ["file names are plain ASCII without blanks (git quotes other names in porcelain output; not part of this property)",
+ASSUME = ["file names: plain ASCII, with a blank, non-ASCII, with a double quote and a backslash (git prints the last three "
+          "quoted in porcelain output); names with line breaks or ' -> ' inside are not generated",
           "changes of unrelated files that the user had already staged may be part of the commit (--allow-dirty); unstaged and "
           "untracked ones must stay uncommitted (bumpver stages configured files only)"]
 
@@ -61,8 +62,9 @@ def apply_status(repo, path, status, is_pattern):
         projgen.write_file(repo, new, content(OLD, "EDITED") if is_pattern else "edited after rename\n")
 
 
-def run_case(files, allow_dirty, pre_hook=False):
-    """files: [{"path", "pattern": bool, "status"}]; pre_hook: a no-op pre-commit hook is configured"""
+def run_case(files, allow_dirty, pre_hook=False, quotepath=False):
+    """files: [{"path", "pattern": bool, "status"}]; pre_hook: a no-op pre-commit hook is configured;
+    quotepath: git's default core.quotePath=true (non-ASCII bytes are printed as octal escapes)"""
     tmp = tempfile.mkdtemp(prefix="c11_")
     try:
         pattern_files = [f["path"] for f in files if f["pattern"]]
@@ -82,6 +84,8 @@ def run_case(files, allow_dirty, pre_hook=False):
             if f["status"] not in ("added", "untracked"):
                 projgen.write_file(tmp, f["path"], content(OLD) if f["pattern"] else "unrelated\n")
         gitbox.init(tmp)
+        if quotepath:
+            gitbox.git(tmp, "config", "--unset", "core.quotepath")
         for f in files:
             apply_status(tmp, f["path"], f["status"], f["pattern"])
         porcelain = gitbox.git(tmp, "status", "--porcelain")
@@ -152,14 +156,26 @@ def matrix(tier):
                         for hook in (False, True):
                             out.append({"files": [dict(f)] + ([] if is_pattern else [{"path": "a.txt", "pattern": True, "status": "clean"}]),
                                         "allow_dirty": allow, "pre_hook": hook})
+    # the same statuses for file names that git prints quoted in its porcelain output
+    for status in STATUSES + ["renamed-modified"]:
+        for is_pattern in (True, False):
+            for allow in (False, True):
+                for nm in ODD_NAMES:
+                    f = {"path": nm, "pattern": is_pattern, "status": status}
+                    for qp in ((False, True) if any(ord(c) > 126 for c in nm) else (False,)):
+                        out.append({"files": [f] + ([] if is_pattern else [{"path": "a.txt", "pattern": True, "status": "clean"}]),
+                                    "allow_dirty": allow, "pre_hook": False, "quotepath": qp})
     return out
 
 
+ODD_NAMES = ["a b.txt", "src dir/a.txt", "caf\u00e9.txt", "q\"uo\\te.txt"]
+
+
 def check_matrix(case):
-    return run_case(case["files"], case["allow_dirty"], case.get("pre_hook", False))
+    return run_case(case["files"], case["allow_dirty"], case.get("pre_hook", False), case.get("quotepath", False))
 
 
-NAMES = ["a.txt", "b.cfg", "src/c.py", "src/deep/d.txt", "docs/e.md", "f"]
+NAMES = ["a.txt", "b.cfg", "src/c.py", "src/deep/d.txt", "docs/e.md", "f", "g h.txt", "docs/\u00fc.md"]
 
 
 def build(d):
@@ -171,11 +187,11 @@ def build(d):
         if f["pattern"] and d.chance(1, 3):
             f["key"] = os.path.join(os.path.dirname(nm), "*" + os.path.basename(nm)) if d.bool() else "./" + nm
         files.append(f)
-    return {"files": files, "allow_dirty": d.bool(), "pre_hook": d.chance(1, 3)}
+    return {"files": files, "allow_dirty": d.bool(), "pre_hook": d.chance(1, 3), "quotepath": d.bool()}
 
 
 def check_b(case):
-    return run_case(case["files"], case["allow_dirty"], case.get("pre_hook", False))
+    return run_case(case["files"], case["allow_dirty"], case.get("pre_hook", False), case.get("quotepath", False))
 
 
 def selftest():
